@@ -177,9 +177,13 @@ func execC13(c c13Case) Outcome {
 			if _, err := w.WriteString("4242 Accepted password for u from 1.2.3.4 port 22 ssh2\n"); err != nil {
 				return fail("writer: %v", err)
 			}
+			// wait until the worker is in (or about to enter) the hand-off: normally the
+			// event of the accepted line is written first. Whether it is written before
+			// or after the hand-off is not this property's concern, so a missing event
+			// only shortens the wait.
 			target := c.Pre + 1
-			if !waitUntil(10*time.Second, func() bool { return rec.Len() == target }) {
-				return fail("accepted line never produced its event (have %d want %d)", rec.Len(), target)
+			if !waitUntil(2*time.Second, func() bool { return rec.Len() >= target }) {
+				labels = append(labels, "accepted_event_not_written_before_handoff")
 			}
 		default:
 			target := int64(pre)
